@@ -182,10 +182,18 @@ def rca_case(chunks, d, reduced):
     else:
       ctx.require('fisher_step_call_sites', ctx.cond(len(rec_lstsq.args) == 1 and len(rec_eig.args) == 1 and len(rec_is.args) == 1))
       (Tc, Ic), kw = rec_lstsq.args[0]
-      for a in range(d):
-        for b in range(d):
-          ctx.require('total_covariance_is_that_of_the_original_chunk_points', ctx.eq(Tc[a, b], total[a][b], tol=1e-9))
-          ctx.require('within_covariance_handed_to_the_generalised_problem', ctx.eq(Ic[a, b], inner[a][b], tol=1e-9))
+      # the generalised problem only depends on the two matrices up to positive factors (any normalisation of the covariances keeps
+      # the retained directions): proportionality with a positive factor, entry by entry (cross-multiplied)
+      def proportional(A, B):
+        tr_a = sum(A[a, a] for a in range(d))
+        tr_b = sum(B[a][a] for a in range(d))
+        conds = [ctx.eq(A[a, b] * tr_b, B[a][b] * tr_a, tol=1e-9) for a in range(d) for b in range(d)]
+        # positive factor: the traces (non-negative for covariances) vanish together and have the same sign
+        conds.append(ctx.iff(ctx.gt(tr_a, 0), ctx.gt(tr_b, 0)))
+        conds.append(ctx.ge(tr_a * tr_b, 0, tol=0.0))
+        return ctx.and_(*conds)
+      ctx.require('total_covariance_is_that_of_the_original_chunk_points_up_to_scale', proportional(Tc, total))
+      ctx.require('within_covariance_handed_to_the_generalised_problem_up_to_scale', proportional(Ic, inner))
       vals, vecs = rec_eig.fn.__self__ if False else (None, None)
   return fn
 
